@@ -108,7 +108,7 @@ def strat_mc(draw, tier):
     return dict(table=table, shared=shared, roots=[root], betas={}, overloads=draw(st.booleans()),
                 np_seed=draw(st.integers(0, 2**31 - 1)), draws=[[dnames[i], dtypes[i]] for i in range(n_draw_vars)],
                 user_types=user_types, R=r, seed_param=draw(st.sampled_from([0, 1, 7, 12345])),
-                seed_via=draw(st.sampled_from(['parameters', 'kwarg'])),
+                seed_via=draw(st.sampled_from(['parameters', 'kwarg'])), formulas_dict=draw(st.booleans()),
                 # an earlier Monte-Carlo formula evaluated on the SAME database (other draw variables)
                 prelude=draw(st.one_of(st.none(), st.lists(
                     st.tuples(st.sampled_from(['AA_first', 'a_0', 'zz_last', 'Y']),
@@ -175,11 +175,21 @@ def _observe_mc(case):
         params = Parameters()
         params.set_value(name='number_of_draws', value=case['R'])
         params.set_value(name='number_of_threads', value=1)
+        formulas = e2
+        if case.get('formulas_dict'):
+            import biogeme.expressions as ex
+
+            last_name = sorted(n_ for n_, _ in case['draws'])[-1]
+            last_type = dict((n_, t_) for n_, t_ in case['draws'])[last_name]
+            only_last = ex.MonteCarlo(ex.bioDraws(last_name, last_type))
+            # the formula without draws comes last in the dictionary
+            formulas = {'log_like': e2, 'only_last': only_last,
+                        'plain': ex.Variable(case['table']['columns'][0][0]) * 1.0 + 0.0}
         if case.get('seed_via', 'parameters') == 'kwarg':
-            the = bio.BIOGEME(database2, e2, parameters=params, seed=case['seed_param'])
+            the = bio.BIOGEME(database2, formulas, parameters=params, seed=case['seed_param'])
         else:
             params.set_value(name='seed', value=case['seed_param'])
-            the = bio.BIOGEME(database2, e2, parameters=params)
+            the = bio.BIOGEME(database2, formulas, parameters=params)
         the.save_iterations = False
         the.generate_html = False
         the.generate_pickle = False
@@ -187,8 +197,14 @@ def _observe_mc(case):
         likes.append(float(the.calculate_likelihood(x, scaled=False)))
         tables.append(np.asarray(database2.theDraws, dtype=float).tolist())
         if not res.get('sim_rows'):
+            if case.get('formulas_dict'):
+                # one formula of the dictionary is first evaluated on its own, on the same database
+                only_last.get_value_c(database=database2, number_of_draws=case['R'], prepare_ids=True)
             # the same object: simulation, then the likelihood again (same draws throughout)
             sim = the.simulate(dict(zip(the.free_beta_names, x)))
+            if case.get('formulas_dict'):
+                res['sim_only_last'] = np.asarray(sim['only_last'], dtype=float).tolist()
+                res['sim_plain'] = np.asarray(sim['plain'], dtype=float).tolist()
             res['sim_rows'] = np.asarray(sim['log_like'], dtype=float).tolist()
             res['like_after_simulate'] = float(the.calculate_likelihood(x, scaled=False))
     res['likes'] = likes
@@ -291,6 +307,22 @@ def judge_mc(case) -> Outcome:
         if o['like_after_simulate'] != l1:
             out.fail(prefix + 'mc:likelihood_after_simulate', f'log likelihood {l1!r} before simulate(), {o["like_after_simulate"]!r} after, '
                                                               f'same object and parameters')
+    if 'sim_plain' in o:
+        col0 = [row[case['table']['columns'][0][0]] for row in rows]
+        if o['sim_plain'] != col0:
+            out.fail(prefix + 'mc:dictionary:plain_formula', f'formula without draws simulated to {o["sim_plain"]}, the column is {col0}')
+        if not native_random:
+            k_last = len(names_sorted) - 1
+            want = [float(np.mean(table[i, :, k_last])) for i in range(n)]
+            if not all(math.isfinite(a) and abs(a - b_) <= 1e-9 * (1 + abs(b_)) for a, b_ in zip(o['sim_only_last'], want)):
+                out.fail(prefix + 'mc:dictionary:other_formula',
+                         f'formula MonteCarlo({names_sorted[-1]}) of the same dictionary, evaluated once on its own before simulate(), '
+                         f'simulates to {o["sim_only_last"]}; the mean of its series is {want}')
+            for i, (gv, ev) in enumerate(zip(o['sim_rows'], refs)):
+                if not (math.isfinite(gv) and abs(gv - ev.v) <= tol(ev) + 1e-12 * R):
+                    out.fail(prefix + 'mc:dictionary:simulate', f'observation {i}: simulate() gives {gv!r}, mean over draws {ev.v!r} '
+                                                               f'(dictionary of three formulas, the last one without draws)')
+                    break
     if not native_random:
         total = sum(ev.v for ev in refs)
         ttol = sum(tol(ev) for ev in refs) + 1e-10 * (1 + abs(total))
@@ -420,6 +452,7 @@ def strat_derive(draw, tier):
     kind, name = draw(st.sampled_from(cands))
     case['wrt'] = [kind, name]
     case['roots'] = [['Derive', root, name]]
+    case['reuse_object'] = draw(st.booleans())
     return case
 
 
@@ -504,13 +537,25 @@ def judge_derive(case) -> Outcome:
         out.fail(f'{prefix}derive:raises:{res["exc_type"]}',
                  f'Derive raised {res["exc_type"]}: {res["exc_msg"][:300]} for {refsem.render(root, case["shared"])[:300]}')
         return out
-    got = res['value']
+    got = res['value']['first']
     for i, (gv, ev) in enumerate(zip(got, refs)):
         if not (math.isfinite(gv) and abs(gv - ev.v) <= 1e-7 * (1 + abs(ev.v))):
             out.fail(f'{prefix}derive:value:{kind}',
                      f'row {i}: engine {gv!r} vs reference derivative {ev.v!r} w.r.t. {name!r} of '
                      f'{refsem.render(root[1], case["shared"])[:300]}')
             break
+    if not out.failures:
+        for tag_, vals_, f_ in (('in_larger_formula', res['value'].get('in_bigger'), lambda x: 0.5 * x + 0.25),
+                                ('columns_reordered', res['value'].get('reordered'), lambda x: x)):
+            if vals_ is None:
+                continue
+            for i, (gv, ev) in enumerate(zip(vals_, refs)):
+                want = f_(ev.v)
+                if not (math.isfinite(gv) and abs(gv - want) <= 1e-7 * (1 + abs(want))):
+                    out.fail(f'{prefix}derive:same_object:{tag_}',
+                             f'row {i}: the same Derive object evaluated again ({tag_}) gives {gv!r}, expected {want!r} '
+                             f'(derivative w.r.t. {name!r} of {refsem.render(root[1], case["shared"])[:250]})')
+                    break
     return out
 
 
@@ -519,7 +564,19 @@ def _observe_plain_betas(case):
     database = build.build_database(case['table'])
     e = build.Builder(case['shared'], overloads=case['overloads']).build(case['roots'][0])
     v = e.get_value_c(database=database, betas=case['betas'] or None, prepare_ids=True)
-    return np.asarray(v, dtype=float).tolist()
+    out = dict(first=np.asarray(v, dtype=float).tolist())
+    if case.get('reuse_object'):
+        # the SAME object again under other numberings of the elementary expressions: inside a larger formula with two
+        # more parameters (one sorted first, one last), and on a table whose columns are listed in reverse order
+        from biogeme.expressions import Beta
+
+        bigger = Beta('zzz_extra', 0.5, None, None, 0) * e + Beta('AAA_extra', 0.25, None, None, 0)
+        out['in_bigger'] = np.asarray(bigger.get_value_c(database=database, betas=case['betas'] or None, prepare_ids=True),
+                                      dtype=float).tolist()
+        rev = dict(columns=list(reversed(case['table']['columns'])))
+        out['reordered'] = np.asarray(e.get_value_c(database=build.build_database(rev), betas=case['betas'] or None,
+                                                    prepare_ids=True), dtype=float).tolist()
+    return out
 
 
 SUBCHECKS = [
